@@ -148,14 +148,14 @@ func (d *recDialer) Dial(string) (transport.Conn, error) {
 	s.mu.Lock()
 	s.attempt++
 	k := s.attempt
+	s.discSent = false
+	s.mu.Unlock()
 	var plan connPlan
 	if k-1 < len(s.plans) {
 		plan = s.plans[k-1]
 	} else if s.planGen != nil {
 		plan = s.planGen(k)
 	}
-	s.discSent = false
-	s.mu.Unlock()
 	if plan.refuse {
 		s.ev("dial %d 0", k)
 		return nil, errInjected
